@@ -188,4 +188,36 @@ theorem route_recent (q : QueryIn) (hp : q.pureQU = true) (hr : q.allRecent = tr
     simp only [routeStrat, hp.1, hst, Bool.not_false, Bool.and_self, ↓reduceIte]
     exact foldl_addQU_recent q st.answers r (ha st (by simp)) h0
 
+/-! ### answered queries; outputs up to extras -/
+
+theorem alErase_idem {α} (k : Addr) (l : List (Addr × α)) : alErase k (alErase k l) = alErase k l := by
+  simp [alErase, List.filter_filter]
+
+/-- the state the first copy of an answered (valid, untruncated, registry non-empty) query leaves behind -/
+theorem process_answered (s : State σ) (d : Bytes) (a : Addr) (p : Nat) (now : Ms) (r : Nat)
+    (hv : (H.parse d).valid = true) (hq : (H.parse d).isQuery = true) (htc : (H.parse d).truncated = false)
+    (he : H.hasEntries s.down = true) :
+    process H s d a p now r =
+      ({ s with data := some d, lastTime := now, lastMsg := some (H.parse d), timers := alErase a s.timers,
+                deferred := alErase a s.deferred,
+                down := (H.onQuery s.down ((alGet a s.deferred).getD [] ++ [(⟨d, now⟩ : Packet)]) a p).1 },
+       (H.onQuery s.down ((alGet a s.deferred).getD [] ++ [(⟨d, now⟩ : Packet)]) a p).2,
+       .responded ((alGet a s.deferred).getD [] ++ [(⟨d, now⟩ : Packet)]).length) := by
+  simp [process, hv, hq, he, queryOrDefer, htc, respondMsg]
+
+theorem ExtraOf.refl (ok : ω → Bool) : ∀ l : List ω, ExtraOf ok l l
+  | [] => .nil
+  | x :: l => .both x (ExtraOf.refl ok l)
+
+theorem ExtraOf.extras (ok : ω → Bool) : ∀ (e : List ω) {r d : List ω}, (∀ x ∈ e, ok x = true) → ExtraOf ok r d → ExtraOf ok r (e ++ d)
+  | [], _, _, _, h => h
+  | x :: e, _, _, he, h => .extra x (he x (by simp)) (ExtraOf.extras ok e (fun y hy => he y (by simp [hy])) h)
+
+theorem ExtraOf.append (ok : ω → Bool) {r1 d1 r2 d2 : List ω} (h1 : ExtraOf ok r1 d1) (h2 : ExtraOf ok r2 d2) :
+    ExtraOf ok (r1 ++ r2) (d1 ++ d2) := by
+  induction h1 with
+  | nil => exact h2
+  | both x _ ih => exact .both x ih
+  | extra x hx _ ih => exact .extra x hx ih
+
 end Zc.Listener
